@@ -1,15 +1,21 @@
 """C01: no source ack before every destination (or the DLQ) confirmed."""
 import os, sys
 sys.path.insert(0, os.path.dirname(__file__))
+from stream_jobs import JOBS as _SJ, LEAN_MODULES as _SM, RULE as _SR, ASSUMPTIONS as _SA
 from funnel_common import arbiter_job, funnel_job, funnel_conc_job, funnel_shared_job, FUNNEL_RULE, FUNNEL_ASSUME
 
 PROP = {
-    "lean_modules": ["ConduitModel.Props.ArbiterProps"],
+    "lean_modules": ["ConduitModel.Props.ArbiterProps", "ConduitModel.Props.WorkerProps"],
     "jobs": [funnel_job("C01"), funnel_conc_job("C01"), funnel_shared_job("C01"), arbiter_job()],
     "rule": FUNNEL_RULE,
     "strength": 'fan-out arbitration: full (all M, n, vote orders); whole pass: partial (see note)',
     "assumptions": FUNNEL_ASSUME,
 }
+PROP["jobs"] += _SJ["C01"]
+PROP["lean_modules"] += _SM["C01"]
+PROP["rule"] += " || v1: " + _SR
+PROP["assumptions"] = list(PROP["assumptions"]) + _SA
+
 META = {
     "text": 'Lean 4 theorems for every number of branches M, batch size n and every vote sequence/order of the arch-v2 fan-out arbiter (multiAckNacker): a position released as acked was voted ack by every branch (C01_ma_ack_unanimous); the acked set does not depend on the vote order (C01_ma_release_order_independent); simulation lemmas tie the monadic engine model (ackerCall/releaseLoop/voteLoop) to the pure arbiter. The executable model of the whole pass is tied to the real funnel.Worker by event-log equality; the C01 monitor (every acked record confirmed by every destination that received a piece of it, or filtered, or DLQ write confirmed) runs on every implementation trace.',
     "note": 'PARTIAL: the composition of these leaf theorems with the task recursion of Worker.doTaskAttempt/doNextTask (whole-pass statement) is validated by equality of event logs against the executable Lean model and by the Lean-defined trace monitor on every implementation trace (serial fan-out orders, real concurrent fan-out, several sources into one shared sink), not proved. v1 (default engine) part: Props/*Stream when merged. Trusted: Lean kernel, factgen, harness/fakes, Go runtime.',
